@@ -46,6 +46,8 @@ SCEN = {
     'PushS': lambda inv=(): sc('MC_PushS', 4, 5, inv),
     'PushC': lambda inv=(): sc('MC_PushC', 5, 6, inv),
     'FrameS': lambda inv=(): sc('MC_FrameS', 4, 5, inv),
+    'RawS': lambda inv=(): sc('MC_RawS', 3, 4, inv),
+    'RawC': lambda inv=(): sc('MC_RawC', 3, 4, inv),
     'UpgPair': lambda inv=(): sc('MC_UpgPair', 6, 7, inv),
     'UpgS': lambda inv=(): sc('MC_UpgS', 4, 5, inv),
     'UpgC': lambda inv=(): sc('MC_UpgC', 4, 5, inv),
@@ -89,15 +91,15 @@ PROPS = {
             'lens': [(['r', 'e', 'o'], S('frame:HEADERS', 'frame:PP'))]},
     'C16': {'scenarios': scen('LenC LenS', ['P_C16_ContentLength']),
             'lens': [(['r', 'e', 'o', 'z.streams.ecl', 'z.streams.acl', 'z.streams.meth'], S('frame:HEADERS', 'frame:DATA'))]},
-    'C17': {'scenarios': scen('CloseS HdrInS HdrInC LifeC', ['OnlyKnownExceptions']),
+    'C17': {'scenarios': scen('CloseS HdrInS HdrInC LifeC RawS RawC', ['OnlyKnownExceptions']),
             'lens': [(['r'], S('recv', 'dlv'))]},
-    'C18': {'scenarios': scen('CloseS LifeS SetS HdrInS FrameS', ['P_C18_OneGoAwayWithCode']),
+    'C18': {'scenarios': scen('CloseS LifeS SetS HdrInS FrameS RawS RawC', ['P_C18_OneGoAwayWithCode']),
             'lens': [(['r', 'o'], S('recv', 'dlv'))]},
     'C19': {'scenarios': scen('CloseS MiscC', ['P_C19_ClosedStaysQuiet']),
             'lens': [(['r', 'o', 'z.conn'], ANY)]},
     'C20': {'scenarios': scen('LifeC LifeS Pair1 PushC', ['P_C20_ResetRacesAreStreamErrors']),
             'lens': [(['r', 'o', 'e', 'q.rw', 'z.iw'], S('recv', 'dlv'))]},
-    'C21': {'scenarios': [dict(s, chunked=True) for s in scen('LifeS LifeC MiscC CloseS FrameS', [])],
+    'C21': {'scenarios': [dict(s, chunked=True) for s in scen('LifeS LifeC MiscC CloseS FrameS RawS RawC', [])],
             'lens': [(['r', 'o', 'e'], S('recv', 'dlv'))]},
     'C22': {'scenarios': scen('LifeC SetC MiscS Pair1 PushC PushS', ['P_C22_PushOnlyWhenAllowed']),
             'lens': [(['r', 'o', 'e'], S('call:push', 'frame:PP')), (['r', 'e'], S('frame:HEADERS', 'frame:DATA'))]},
@@ -110,7 +112,7 @@ PROPS = {
             'lens': [(ALL_PUBLIC + STATE_FSM + ['z.rs', 'z.ls', 'z.hiIn', 'z.hiOut', 'z.streams.ow', 'z.ow'], ANY)]},
     'C26': {'scenarios': scen('MiscC MiscS CloseS', ['P_C26_PingAnsweredOnce']),
             'lens': [(['r', 'o', 'e'], S('call:ping', 'frame:PING'))]},
-    'C27': {'scenarios': scen('CloseS MiscS MiscC LifeS HdrInS PushC', ['P_C27_ClosedMemoryBounded', 'P_C27_NoStateForNonOpeningFrames']),
+    'C27': {'scenarios': scen('CloseS MiscS MiscC LifeS HdrInS PushC RawS', ['P_C27_ClosedMemoryBounded', 'P_C27_NoStateForNonOpeningFrames']),
             'lens': [(['z.streams', 'z.closed'], ANY), (['r', 'o'], S('frame:HEADERS', 'frame:PP', 'frame:CONT'))]},
     'C28': {'scenarios': [dict(s, hashseeds=True) for s in scen('Pair1 SetS MiscC HdrInS', [])],
             'lens': [(ALL_PUBLIC, ANY)]},
@@ -150,17 +152,17 @@ TV = {
     'C14': tvs('s c', 'headers', n=(24, 600), chaos=0.2),
     'C15': tvs('s c', 'headers', n=(24, 600), chaos=0.2),
     'C16': tvs('s c', 'mix flow headers'),
-    'C17': tvs('s c', 'mix close headers', chaos=0.35),
-    'C18': tvs('s c', 'mix close settings', chaos=0.35),
+    'C17': tvs('s c', 'mix close headers raw', chaos=0.35),
+    'C18': tvs('s c', 'mix close settings raw', chaos=0.35),
     'C19': tvs('s c pair', 'close', n=(20, 500), chaos=0.2),
     'C20': tvs('s c pair', 'life push', max_closed=[None, 2]),
-    'C21': tvs('s c', 'mix life', chunked=True) + tvs('pair', 'mix', chunked=True),
+    'C21': tvs('s c', 'mix life raw', chunked=True) + tvs('pair', 'mix', chunked=True),
     'C22': tvs('s c pair', 'push', n=(20, 600)),
     'C23': tvs('s c pair', 'misc'),
     'C24': tvs('s c pair', 'misc'),
     'C25': tvs('s c pair', 'upgrade', n=(16, 400)),
     'C26': tvs('s c pair', 'misc'),
-    'C27': tvs('s c', 'life push', max_closed=[2, 4], chaos=0.15),
+    'C27': tvs('s c', 'life push raw', max_closed=[2, 4], chaos=0.15),
     'C28': tvs('s c pair', 'mix', hashseeds=True),
     'C29': tvs('s c', 'mix life misc', chaos=0.4),
 }
